@@ -8,7 +8,7 @@
    shares with EMPTY_BALANCE_THRESHOLD = 1; DESIGN.md §7 C04 records this reading). *)
 Require Import Base Constants Fixed Curve Bank BankOps Risk TransferFee Handlers.
 Require Import Price RiskFeed.
-Require Import FixedLemmas BankLemmas HandlerLemmas ErrLemmas RiskGateLemmas ReconcileLemmas RiskFeedLemmas.
+Require Import FixedLemmas BankLemmas HandlerLemmas ErrLemmas RiskGateLemmas ReconcileLemmas RiskFeedLemmas NoRiskAccounts.
 Local Open Scope Z_scope.
 
 (* ---- soundness: success outside a flash loan => the check on the FINAL account in the FINAL world passed *)
@@ -184,7 +184,24 @@ Example C04_nonvacuous :
   foldM hstep (ex_setup ++ [HBorrow 1 1 50000001]) ex_w = Err (E 6009).
 Proof. split; vm_compute; reflexivity. Qed.
 
+(* the same two instructions sent WITHOUT their risk (bank / oracle) accounts: everything up to the health check is
+   identical (h_borrow_norem / h_withdraw_norem), the engine cannot load the first active balance; success is possible
+   only inside a flash loan (check skipped, C11 owns the end check) or for an account left without any active balance *)
+Theorem C04_borrow_without_risk_accounts :
+  forall w a b n w', h_borrow_norem w a b n = Ok w' ->
+  exists ac3, nth_acct w' a = Ok ac3 /\
+    (aflag ac3 ACCOUNT_IN_FLASHLOAN = true \/ existsb bl_active (ha_la ac3) = false).
+Proof. exact borrow_norem_only_flashloan_or_empty. Qed.
+
+Theorem C04_withdraw_without_risk_accounts :
+  forall w a b n all w', h_withdraw_norem w a b n all = Ok w' ->
+  exists ac3, nth_acct w' a = Ok ac3 /\
+    (aflag ac3 ACCOUNT_IN_FLASHLOAN = true \/ existsb bl_active (ha_la ac3) = false).
+Proof. exact withdraw_norem_only_flashloan_or_empty. Qed.
+
 Print Assumptions C04_borrow_sound.
+Print Assumptions C04_borrow_without_risk_accounts.
+Print Assumptions C04_withdraw_without_risk_accounts.
 Print Assumptions C04_withdraw_sound.
 Print Assumptions C04_isolated_debt_is_only_debt.
 Print Assumptions C04_nonempty_means_one_unit.
